@@ -20,6 +20,13 @@ NA = {
 }
 
 CHECKS = {
+ "C02": dict(
+   engine="B-lazy-schedule",
+   technique="deterministic simulation: invariant monitor over the recorded statement trace under seeded late-delivery fault schedules; alarms only with a concrete source witness",
+   category="exploration",
+   text="The real compiler runs under a hook-free trace monitor (statement, address given, chunk produced, for every block instance incl. included files and repeat bodies); after every error-free run the monitor recomputes every address from the sizes of the chunks actually produced and compares block bytes and image bytes at that address with the chunk. Runs are explored fault-free and under seeded schedules that deliver constant definitions late, which is what turns sizes/contents into 'announced now, computed later'. A monitor failure under a schedule is reported only if the really moved source fails the monitor too. Sampling, not proof.",
+   design_ref="DESIGN.md 3.2, 5.2",
+   note="Trusted: the monitor's arithmetic and the wrappers on Compiler.compile_block/compile_insn/compile_word_list/compile_label/compile_include. Only runs without error diagnostics are judged. '. = X' skips are observed as zero-filled gaps where the AST has such a statement."),
  "C03": dict(
    engine="B-lazy-schedule",
    technique="deterministic simulation: seeded late-delivery fault schedules at the Symbol._resolve / try_compute seam, verdict on concrete moved-source witness",
@@ -27,6 +34,34 @@ CHECKS = {
    text="Seeded search over evaluation schedules of pdpy11's 'try now, otherwise defer' protocol: constant definitions are delivered late (lookups answered NotReadyError until a chosen later statement starts), the result must equal the fault-free run; every divergence is re-established by really moving the definition text and assembling with no injection before it is reported. Sampling, not proof: covers generated programs (all operand/directive positions, chains to depth 300) and the 21 practice programs.",
    design_ref="DESIGN.md 3.2, 5.1",
    note="Trusted: the harness (SimFS for include/insert reads, outcome comparison); the injection is not trusted for verdicts (witness re-run). Eligible definitions: top-level constants defined once, without '.'/local labels. Diagnostics are not compared."),
+ "C07": dict(
+   engine="A-sim-process-world",
+   technique="deterministic simulation with fault injection: real main_cli() on a simulated disk/stdio, seeded I/O fault plans + single-fault sweep, oracle over the recorded history of diagnostics, file-system events and exit status",
+   category="exploration",
+   text="Every run executes the shipped main_cli() in a simulated process world; the oracle is evaluated over the recorded history (diagnostics tap, create/truncate/write/close events, acknowledgements in event order, exit status): exit!=0 iff an error-severity diagnostic or fatal line was issued, failing runs touch no file, succeeding runs write and acknowledge every requested output; the same seed re-run under other -W selections and report formats must give identical exit status, files and bytes; I/O faults at every seam call (single-fault sweep) and random 1-3-fault plans must fail the run without false acknowledgement. Sampling over programs, exhaustive only per swept workload item.",
+   design_ref="DESIGN.md 3.1, 4.2",
+   note="Trusted: SimFS POSIX fidelity (sampled by selftest-fidelity against a real subprocess), the path model, the diagnostics tap. The 'internal compiler error' report counts as a reported failure (crash-freedom is C08). Known finding F-C07-1 (files left behind after an output-side I/O error) is listed in known_findings.txt."),
+ "C13": dict(
+   engine="A-sim-process-world",
+   technique="deterministic simulation with fault injection: simulated disk after each real CLI run vs independent path model; write-fault plans (torn/failed writes) for 'acknowledged => complete'; containers decoded by independent readers",
+   category="exploration",
+   text="Decided by simulation: which files appear where (independent path model over every selector and path form) and that under injected write faults (open/write/close, torn prefixes) an acknowledged output is complete and identical to the fault-free one while an unacknowledged one is absent, stale-truncated or a prefix and the run fails. Sampled as by-product on the same runs: every container decoded by independent bin/RIFF/BK-tape (normal and turbo) readers equals the image of a pristine library assembly, incl. header, padded name and end-around-carry checksum (payloads 0-4096 bytes, sums that are multiples of 65535).",
+   design_ref="DESIGN.md 3.1, 4.3",
+   note="Trusted: the independent readers in sim/containers.py (written from the property statement) and the path model; the codec facet is differential sampling, not decided by fault exploration."),
+ "C18": dict(
+   engine="A-sim-process-world",
+   technique="deterministic simulation: seeded histories of assemblies (incl. fault-, handler-, EPIPE- and RecursionError-terminated ones) in one interpreter vs pristine forked reference processes, across PYTHONHASHSEED values",
+   category="exploration",
+   text="A history of up to 50 operations (CLI runs and library assemblies of valid, invalid, crashing and fault-terminated programs) runs in one interpreter; each operation's observable result (outcome, base, bytes, files, structured diagnostics, positions) must equal the same operation executed alone in a child forked from a pristine interpreter, and per-run digests must agree between workers with different hash seeds. Module-global state is monitored after every operation and a broken invariant triggers the sensitive probe set, but only observable differences are reported. Histories are minimised by ddmin.",
+   design_ref="DESIGN.md 3.1, 4.1",
+   note="Trusted: result_key() extraction; fork() as a faithful copy of a pristine process. Message text is not compared (it contains running instance numbers)."),
+ "C19": dict(
+   engine="A-sim-process-world",
+   technique="deterministic simulation with fault injection: the .lst file on the simulated disk after real CLI runs (when/where it is written, under write faults at each of its seam calls) + parsed content vs ledger, probe tables and markers of the same run's image",
+   category="exploration",
+   text="Decided by simulation: the listing is written only by succeeding runs with an output, beside the first output file, complete whenever acknowledged, and a fault at any of its open/write/close calls fails the run. Sampled as by-product: parsed listing vs generator ledger (every ordinary symbol once, per file, no locals), octal values vs '.dword S' probe tables and constant values (negative and >16-bit included), (value, name) ordering, label addresses vs markers in the image.",
+   design_ref="DESIGN.md 3.1, 4.4",
+   note="Trusted: generator ledger, path model (both first make_* file and -o file accepted as 'first output'; location unchecked with '-o -'), bin reader. Content facet is differential sampling."),
 }
 
 def main():
